@@ -1,6 +1,7 @@
 import BoltonsVerif.C12.Proofs
 import BoltonsVerif.C12.Proofs3
 import BoltonsVerif.Generated.C12_Consts
+import BoltonsVerif.Generated.C12_NsWindow
 /-
 C12 — property theorems for the BufferedSocket / NetstringSocket model (statements, short
 derivations from `Proofs.lean`, non-vacuity examples).
@@ -719,5 +720,18 @@ example : (recvSizeI ⟨4, 4⟩ (-5) (start [])).1 = .closed := by decide
 example : pyDropLast 5 [1, 2, 3] = [] ∧ pyLast 5 [1, 2, 3] = [1, 2, 3] ∧ pyDropLast 1 [1, 2, 3] = [1, 2] := by decide
 example : ((NsSock.init 10).readNsManyI ⟨4, 4⟩ none 2 (start [.chunk [45, 49, 58, 44, 49, 58, 7, 44]])).1
     = [.ok [], .ok [7]] := by decide
+
+/-! ## 9. round 3: the prefix window of NetstringSocket, measured on the current source -/
+
+/-- translator-regenerated fact: for every maxsize of the table (digit-count boundaries up to 10^18, 2^31, 2^53,
+    2^63, 2^64) the longest size prefix the REAL read_ns accepts - measured through the public API on every run, for
+    maxsize given to the constructor, to setmaxsize() and as the maxsize= argument - is the window the model
+    computes (`NsSock.init`, `NsSock.setMaxsize`, `calcWindow`), i.e. `len(str(maxsize)) + 1`, far beyond the
+    sizes the test cases reach -/
+theorem ns_window_table_matches_source :
+    ∀ p ∈ Gen.nsWindowTable, (NsSock.init p.1).window = p.2.1 ∧
+      ((NsSock.init 0).setMaxsize p.1).window = p.2.2.1 ∧ calcWindow p.1 = p.2.2.2 := by decide
+
+example : Gen.nsWindowTable.length ≥ 30 ∧ (1000000000000000, 17, 17, 17) ∈ Gen.nsWindowTable := by decide
 
 end C12
